@@ -238,10 +238,6 @@ Section RingTheorems.
 End RingTheorems.
 
 (* ------------------------------------------------------------------ without the hypotheses the statements are false (the implementation shows the same outputs) *)
-(* repeated point at the seam: normalize is not idempotent and drops a coordinate *)
-Theorem norm_ring_idempotent_refuted :
-  exists r, norm_ring true (norm_ring true r) <> norm_ring true r /\ length (norm_ring true (norm_ring true r)) <> length r.
-Proof. exists [(0,0); (0,0); (1,0); (1,1); (0,0)]. vm_compute. split; intros H; discriminate. Qed.
 (* bow-tie: isCCW is true for both directions, every call reverses the ring *)
 Theorem norm_ring_idempotent_refuted_bowtie : exists r, norm_ring true (norm_ring true r) <> norm_ring true r.
 Proof. exists [(0,0); (2,2); (2,0); (0,2); (0,0)]. vm_compute. intros H; discriminate. Qed.
